@@ -898,7 +898,7 @@ def evolution_search(ctx):
         ctx.stat(f"evolution:{solver}:{key_kind}")
         src = PRE + hsrc + f"solver = {qsolver!r}; T = {T!r}; t0 = {t0!r}\npsi = {arr_src(psi)}\nref = {arr_src(ref)}\n" + EVOL_SRC + (
             "o1, _ = run(0.1); o2, _ = run(0.05); o4, _ = run(0.025)\n"
-            + ("e1 = pdist(o1, ref); e2 = pdist(o2, ref)\n" if solver == "trotter" else "e1 = np.abs(o1 - ref).max(); e2 = np.abs(o2 - ref).max()\n") +
+            + ("e1 = pdist(o1, ref); e2 = pdist(o2, ref)\n" if solver == "trotter" else "e1 = np.abs(o1 - ref).max(); e2 = np.abs(o2 - ref).max()\n")
             + ("e4 = pdist(o4, ref)\n" if solver == "trotter" else "e4 = np.abs(o4 - ref).max()\n") +
             "print('errors', e1, e2, e4, 'orders', np.log2(e1 / e2), np.log2(e2 / e4), 'norm', np.linalg.norm(o2))\n"
             f"sys.exit(0 if (e2 < 1e-11 or max(np.log2(e1 / e2), np.log2(e2 / e4)) >= {expected - 0.5}) and e2 < {0.05 ** expected * 400!r} and abs(np.linalg.norm(o2) - 1) < 1e-9 else 1)\n")
